@@ -188,3 +188,15 @@ pub mod c01;
 pub mod c01gen;
 pub mod c01vec;
 pub mod c01bnd;
+pub mod c31;
+pub mod c02;
+pub mod c29;
+pub mod c10;
+pub mod c22;
+pub mod c07;
+pub mod c08;
+pub mod c09;
+pub mod c33;
+pub mod c34;
+pub mod c34tx;
+pub mod c28;
